@@ -11,7 +11,19 @@ import (
 
 type vfSupBehavior struct {
 	Supervisor
-	spec SupervisorSpec
+	spec     SupervisorSpec
+	order    []int       // payloads of regular messages / requests in handling order
+	onHandle func(n int) // called inside every handler with the number handled before it
+}
+
+func (b *vfSupBehavior) HandleMessage(from gen.PID, message any) error {
+	if b.onHandle != nil {
+		b.onHandle(len(b.order))
+	}
+	if m, ok := message.(int); ok {
+		b.order = append(b.order, m)
+	}
+	return nil
 }
 
 func (b *vfSupBehavior) Init(args ...any) (SupervisorSpec, error) { return b.spec, nil }
